@@ -11,10 +11,10 @@ import (
 )
 
 func init() {
-	register(&core.Rule{ID: "MERGE-COMPONENT", Props: []string{"C12"}, Floor: 2,
+	register(&core.Rule{ID: "MERGE-COMPONENT", Props: []string{"C12", "C13"}, Floor: 2,
 		Doc: "a Merge loop that folds component F of the other replica into component F of this one decides per key from F alone (this replica's F entry and the other's): consulting another component makes the join depend on what else has arrived, i.e. on delivery order",
 		Run: runMergeComponent})
-	register(&core.Rule{ID: "MERGE-MONO", Props: []string{"C12"}, Floor: 3,
+	register(&core.Rule{ID: "MERGE-MONO", Props: []string{"C12", "C13"}, Floor: 3,
 		Doc: "in a max-map Merge (GCounter, LWWSet components, VClock) a per-key store is guarded by the comparison that establishes the stored operand as the greater one (join is max, never min or blind overwrite)",
 		Run: runMergeMono})
 	register(&core.Rule{ID: "WRITE-INFLATES", Props: []string{"C12"}, Floor: 2,
